@@ -179,14 +179,17 @@ impl<'a, T: ColumnProvider> ExpressionExecutionEngine<'a, T> {
             ExpressionTree::In { is_not, operand, values } => {
                 let executed_operand = self.evaluate(operand)?;
 
+                let mut any_null = executed_operand.is_null();
                 for value in values {
                     let expected_value = self.evaluate(value)?;
-                    if executed_operand == expected_value {
+                    if expected_value.is_null() {
+                        any_null = true;
+                    } else if executed_operand == expected_value {
                         return Ok(Value::Bool(!is_not));
                     }
                 }
 
-                Ok(Value::Bool(*is_not))
+                Ok(Value::Bool(*is_not && !any_null))
             }
             ExpressionTree::FunctionCall { function, arguments } => {
                 let mut executed_arguments = Vec::new();
